@@ -11,8 +11,9 @@ COQ_CHECK = ("Model.C04", "check")
 COQ_FALLBACK = None
 COQ_IMPORTS = ""
 SHARD = 12
-RULE = ("imaging datasets on random masks (densities 0.15-0.9, single pixel, ring with hole, full block) of <= 20 unmasked pixels in "
-        "frames up to 9x9 whose kernel footprint stays inside the frame; PSFs of shape {1x1,1x3,3x1,3x3,3x5,5x3,1x5,5x5} with signed / "
+RULE = ("imaging datasets on random masks (densities 0.15-0.9, single pixel, ring with hole, full block, full line along the kernel's long "
+        "axis, corners + centre, a pixel pair at an extreme offset of the kernel overlap with the later pixel to the left or right) of <= 20 unmasked pixels in frames up to 10x10 whose kernel footprint stays inside the frame; PSFs of "
+        "shape {1x1,1x3,3x1,3x3,3x5,5x3,1x5,5x1,5x5,1x7,7x1} with signed / "
         "non-negative integer entries (use_normalized_psf=False so every double operation is exact); integer data of either sign; noise in "
         "{1/2,1,2,4} per pixel; 1..3 linear objects in random order mixing real MapperRectangular / MapperDelaunay objects (sub_size 1, 2, "
         "per-pixel {1,2,4}; affine + bilinear source-plane distortions; with / without regularization) and function lists (random sparse "
@@ -38,7 +39,7 @@ ASSUMPTIONS = ["real arithmetic (no rounding): theorems over R; correspondence e
                "kernel footprint of every unmasked pixel inside the frame (the property's quantifier); positive noise on unmasked pixels",
                "preloads (Preloads object) are not exercised here (C15)"]
 
-PSF_SHAPES = [(1, 1), (1, 3), (3, 1), (3, 3), (3, 3), (3, 5), (5, 3), (1, 5), (5, 5)]
+PSF_SHAPES = [(1, 1), (1, 3), (3, 1), (3, 3), (3, 3), (3, 5), (5, 3), (1, 5), (5, 1), (5, 5), (1, 7), (7, 1)]
 NOISE = [Fraction(1, 2), Fraction(1), Fraction(2), Fraction(4)]
 STATS = {}
 
@@ -59,6 +60,36 @@ def rand_mask(rng, H, W, kh, kw, style, maxpix):
             if y in (y0, y1 - 1) or x in (x0, x1 - 1): m[y][x] = False
     elif style == "full":
         for (y, x) in cells: m[y][x] = False
+    elif style == "line":
+        # a full row / column of the admissible cells along the kernel's long axis: pixel pairs at every separation up to and
+        # beyond 2 * (k // 2) along that axis (the limit of the overlap), plus a second line two cells away when there is room
+        horiz = kw > kh or (kw == kh and rng.random() < 0.5)
+        if horiz:
+            y = rng.randrange(y0, y1)
+            for x in range(x0, x1): m[y][x] = False
+            if y + 2 < y1 and rng.random() < 0.5:
+                for x in range(x0, x1, 2): m[y + 2][x] = False
+        else:
+            x = rng.randrange(x0, x1)
+            for y in range(y0, y1): m[y][x] = False
+            if x + 2 < x1 and rng.random() < 0.5:
+                for y in range(y0, y1, 2): m[y][x + 2] = False
+    elif style == "pair":
+        # two pixels at an extreme offset of the kernel overlap (|dy| = 2*(kh//2) or |dx| = 2*(kw//2), either sign of dx, so that the
+        # later pixel in slim order can lie to the LEFT of the earlier one), plus a few random ones
+        for _ in range(20):
+            y, x = rng.choice(cells)
+            dy = rng.choice([0, 2 * (kh // 2), 2 * (kh // 2), rng.randint(0, 2 * (kh // 2))])
+            dx = rng.choice([-2 * (kw // 2), 2 * (kw // 2), -rng.randint(0, 2 * (kw // 2)), -(kw // 2) - 1 if kw > 1 else 0])
+            if (y + dy, x + dx) in cells and (dy, dx) != (0, 0):
+                m[y][x] = False; m[y + dy][x + dx] = False
+                break
+        else:
+            y, x = rng.choice(cells); m[y][x] = False
+        for (y, x) in cells:
+            if rng.random() < 0.1: m[y][x] = False
+    elif style == "corners":
+        for (y, x) in ((y0, x0), (y0, x1 - 1), (y1 - 1, x0), (y1 - 1, x1 - 1), ((y0 + y1 - 1) // 2, (x0 + x1 - 1) // 2)): m[y][x] = False
     else:
         p = rng.choice([0.15, 0.3, 0.5, 0.7, 0.9])
         for (y, x) in cells:
@@ -80,8 +111,8 @@ def rand_kernel(rng, kh, kw):
 
 def rand_dataset(rng, maxpix):
     kh, kw = rng.choice(PSF_SHAPES)
-    H = rng.randint(kh + 1, min(9, kh + 5)); W = rng.randint(kw + 1, min(9, kw + 5))
-    m = rand_mask(rng, H, W, kh, kw, rng.choice(["random", "random", "random", "single", "ring", "full"]), maxpix)
+    H = rng.randint(kh + 1, min(10, kh + 5)); W = rng.randint(kw + 1, min(10, kw + 5))
+    m = rand_mask(rng, H, W, kh, kw, rng.choice(["random", "random", "random", "single", "ring", "full", "line", "corners", "pair", "pair"]), maxpix)
     K = rand_kernel(rng, kh, kw)
     data = [[rng.randint(-9, 9) for _ in range(W)] for _ in range(H)]
     noise = [[S(rng.choice(NOISE)) for _ in range(W)] for _ in range(H)]
